@@ -520,6 +520,7 @@ func Walk(cfg *Config, fn *ssa.Function) []*Path {
 	if cfg.GlobalLen == nil {
 		cfg.GlobalLen = ScanGlobalLens(cfg.P)
 	}
+	overflows0 := TermOverflows()
 	w := &walker{cfg: cfg, fn: fn}
 	st := &state{heap: map[string]hent{}, val: map[string]bool{}, seenCall: map[string]ssa.Instruction{},
 		closures: map[*Term]*ssa.MakeClosure{}, cloEnv: map[*Term][]*Term{}, typeCount: map[string]int{}, rootLens: map[string]int64{}}
@@ -539,6 +540,14 @@ func Walk(cfg *Config, fn *ssa.Function) []*Path {
 			w.paths = append(w.paths, &Path{Note: fmt.Sprintf("more than %d paths", cfg.MaxPaths)})
 			break
 		}
+		if TermOverflows()-overflows0 > 64 {
+			break // arithmetic is being followed: give up early
+		}
+	}
+	if TermOverflows() != overflows0 {
+		// undecided: the function (or a callee that is walked into) performs arithmetic
+		// whose terms exceed the size limit — reported by the caller as a failure
+		return []*Path{{Note: fmt.Sprintf("a term exceeded %d characters: the code walks into arithmetic that this analysis treats as uninterpreted calls (new call into limb-level code?)", MaxTermString)}}
 	}
 	return w.paths
 }
